@@ -427,7 +427,14 @@ func (p *parser) parseDotMember(left ast.Expression) ast.Expression {
 	idx := p.idx
 
 	if !matchIdentifier.MatchString(literal) {
-		p.expect(token.IDENTIFIER)
+		if p.token == token.IDENTIFIER {
+			// The scanner produced an identifier the name pattern rejects:
+			// expect would stay silent, so report it here.
+			p.error(idx, errUnexpectedToken, token.ILLEGAL)
+			p.next()
+		} else {
+			p.expect(token.IDENTIFIER)
+		}
 		p.nextStatement()
 		return &ast.BadExpression{From: period, To: p.idx}
 	}
